@@ -197,6 +197,8 @@ def strat_regen(ctx):
         "which": st.integers(0, 10),
         "new_density": gen.env_value(["", "a", "b", "cyt", "mem"], lambda dr: dr(gen.mantissa()) * F(10) ** dr(st.integers(18, 21)), "any"),
         "new_flag": st.one_of(st.booleans(), st.dictionaries(st.sampled_from(["", "a", "b", "cyt", "mem", "default"]), st.booleans(), max_size=3)),
+        # the volumes are edited as well (grid: cell_vol; graph: one node's volume) after the space has served once
+        "vol_factor": st.sampled_from([None, None, 2.0, 0.5, 3.0]), "vol_node": st.integers(0, 7),
     })
 
 
@@ -214,12 +216,26 @@ def check_regen(ctx, c):
     sut_call("species.chstt = ...", setattr, sp, "chstt", c["new_flag"] if not isinstance(c["new_flag"], dict) else dict(c["new_flag"]))
     if [float(v) for v in system.state.value] != before or [int(v) for v in system.chemostats] != before_f:
         raise Violation("editing a species changed the system state / map before regeneration", key="regen:early")
+    vol = list(model.vol)
+    vf = c.get("vol_factor")
+    if vf is not None:
+        space = system.space
+        if spec["space"]["type"] == "grid":
+            sut_call("space.cell_vol = ...", setattr, space, "cell_vol", space.cell_vol * vf)
+            vol = [v * vf for v in vol]
+        else:
+            j = c["vol_node"] % model.n
+            sut_call("node.volume = ...", setattr, space.nodes[j], "volume", space.nodes[j].volume * vf)
+            vol[j] *= vf
+        ctx.count("regen:volume-edited")
+        if [float(v) for v in system.state.value] != before:
+            raise Violation("editing a volume changed the system state before regeneration", key="regen:early")
     sut_call("set_default_state", system.set_default_state)
     sut_call("set_default_chemostats", system.set_default_chemostats)
-    want = list(model.default_state)
+    want = [env_lookup(spec["species"][s_]["density"], model.env_label[i]) * vol[i] for s_ in range(model.ns) for i in range(model.n)]
     wantf = list(model.default_flags)
     for i in range(model.n):
-        want[k * model.n + i] = env_lookup(c["new_density"], model.env_label[i]) * model.vol[i]
+        want[k * model.n + i] = env_lookup(c["new_density"], model.env_label[i]) * vol[i]
         wantf[k * model.n + i] = flag_lookup(c["new_flag"], model.env_label[i])
     check_state_array(system, model, spec, want, "regenerated state")
     if [int(v) for v in system.chemostats] != wantf:
